@@ -118,6 +118,7 @@ Proof.
     rewrite (i_dead s0 H0). cbn [length Nat.eqb negb]. match goal with |- context [process ?d ?x] => destruct (process d x) end; discriminate.
   - discriminate.
   - discriminate.
+  - discriminate.
 Qed.
 
 Theorem close_clean g s : Inv s -> loop_open s = true ->
